@@ -105,6 +105,8 @@ def menu():
          [c("and_where", e=bin_("NotEqual", col("c"), val("String", "say \"hi\"\n\tZo\u00eb \u20ac"))), c("and_where", e=bin_("NotEqual", col("c"), val("String", "tab\there")))],
          [c("cond_where", c=cond("all", True, [])), c("cond_where", c=cond("any", False, [eq(col("a"), val()), eq(col("b"), val())]))],
          [c("and_where", e={"k": "between", "neg": False, "e": col("a"), "a": val(), "b": val()}), c("and_where", e={"k": "like", "neg": False, "e": col("c"), "p": "x%", "esc": "|"})],
+         # placeholder marks inside text that is not a bound value (the ESCAPE character is always written inline)
+         [c("and_where", e={"k": "like", "neg": False, "e": col("c"), "p": "a?%", "esc": "?"}), c("and_where", e=eq(col("a"), val())), c("and_where", e={"k": "like", "neg": True, "e": col("c"), "p": "$1%", "esc": "$"})],
          # a quoted token that ends in a backslash, followed by bound values
          [c("and_where", e={"k": "like", "neg": False, "e": col("c"), "p": "x%", "esc": "\\"}), c("and_where", e=eq(col("a"), val())), c("and_where", e=eq(col("c"), val("String")))],
          [c("and_where", e={"k": "bin", "op": "In", "m": "in_tuples", "l": {"k": "tuple", "es": [col("a"), col("b"), col("id")]},
@@ -129,6 +131,9 @@ def menu():
         [[], [c("with_cte", w={"ctes": [{"name": "cte", "cols": ["k"], "q": sel(c("column", n="k"), c("from", t=["t2"]), c("and_where", e=eq(col("x"), val())))}]})],
          [c("with_cte", w={"ctes": [{"from_select": True, "q": sel(c("column", n="k"), c("expr_as", e=bin_("Add", col("x"), val()), a="x1"), c("column", n="t1_id", q=["t2"]), c("from", t=["t2"]))}]})],
          [c("with_cte", w={"ctes": [{"from_select": True, "q": sel(c("column", n="k"), c("expr", e=bin_("Mul", col("x"), val())), c("from", t=["t2"]))}]})],
+         # materialization hints (PostgreSQL / SQLite; MySQL has none and the builder writes none there)
+         [c("with_cte", w={"ctes": [{"name": "cte", "cols": ["k"], "mat": False, "q": sel(c("column", n="k"), c("from", t=["t2"]), c("and_where", e=eq(col("x"), val())))},
+                                    {"name": "cte2", "cols": ["k2"], "mat": True, "q": sel(c("column", n="t1_id"), c("from", t=["t2"]), c("and_where", e=bin_("SmallerThan", col("x"), val())))}]})],
          [c("with_cte", w=rec_with(search=True))], [c("with_cte", w=rec_with(cycle=True))], [c("with_cte", w=rec_with(search=True, cycle=True))],
          [c("with_cte", w=rec_with())]],
     ]
